@@ -5,9 +5,11 @@ usage: c21_sched.py <repo> <outdir>
 
 Writes a copy of <repo>/internal/auth/auth.go in which
   * VerifyToken calls verifSched("verify:after-cache-miss") after the cache lookup
-    missed, verifSched("verify:after-query") once the token query has returned
-    (rows still open), and verifSched("verify:before-insert") right before the
-    cache-insert lock is taken;
+    missed (after the miss counter, else right before the token query),
+    verifSched("verify:after-query") once the token query (the single
+    am.db.Query/QueryContext call) and its error check have passed, and
+    verifSched("verify:before-insert") right before every am.cacheMu.Lock() that
+    follows the query (the cache insert) - wherever those landmarks sit;
   * InvalidateCache calls verifSched("invalidate:enter") before taking the lock and
     verifSched("invalidate:exit") after the cache was replaced;
   * every time.Now()/time.Since(/time.Until( goes through verifNow() (clock seam),
@@ -27,18 +29,17 @@ def die(msg):
     sys.exit(3)
 
 
-def func_span(src, header_re):
-    """(start_of_body, end_of_body) of the single function whose header matches."""
-    ms = list(re.finditer(header_re, src, re.M))
-    if len(ms) != 1:
-        die("expected exactly one match for %r, found %d" % (header_re, len(ms)))
-    i = src.index("{", ms[0].end() - 1)
+def match_close(src, i, what):
+    """index of the bracket closing the one at src[i] ('{' or '('), skipping
+    string/rune literals and comments."""
+    op = src[i]
+    cl = {"{": "}", "(": ")"}[op]
     depth, j = 0, i
     in_str = None
     while j < len(src):
         c = src[j]
         if in_str:
-            if in_str == '"' and c == "\\":
+            if in_str in "\"'" and c == "\\":
                 j += 2
                 continue
             if c == in_str:
@@ -48,14 +49,99 @@ def func_span(src, header_re):
         elif c == "/" and src[j:j + 2] == "//":
             j = src.index("\n", j)
             continue
-        elif c == "{":
+        elif c == "/" and src[j:j + 2] == "/*":
+            j = src.index("*/", j) + 2
+            continue
+        elif c == op:
             depth += 1
-        elif c == "}":
+        elif c == cl:
             depth -= 1
             if depth == 0:
-                return i + 1, j
+                return j
         j += 1
-    die("unbalanced braces after %r" % header_re)
+    die("unbalanced %s for %s" % (op, what))
+
+
+def func_span(src, header_re):
+    """(start_of_body, end_of_body) of the single function whose header matches."""
+    ms = list(re.finditer(header_re, src, re.M))
+    if len(ms) != 1:
+        die("expected exactly one match for %r, found %d" % (header_re, len(ms)))
+    i = src.index("{", ms[0].end() - 1)
+    return i + 1, match_close(src, i, header_re)
+
+
+def line_start(s, i):
+    return s.rfind("\n", 0, i) + 1
+
+
+def line_end(s, i):
+    """index just past the newline that ends the line containing i"""
+    return s.index("\n", i) + 1
+
+
+def indent_at(s, i):
+    return re.match(r"[ \t]*", s[line_start(s, i):]).group(0)
+
+
+def next_code_line(s, i):
+    """(start, text) of the first non-blank, non-comment line at or after i"""
+    while i < len(s):
+        e = s.find("\n", i)
+        e = len(s) if e < 0 else e
+        t = s[i:e].strip()
+        if t and not t.startswith("//"):
+            return i, t
+        i = e + 1
+    return len(s), ""
+
+
+def instrument_verify(body):
+    """Insert the three VerifyToken points at semantic landmarks: the token
+    query (am.db.Query / QueryContext - must exist exactly once), the cache
+    lookup miss before it, and every am.cacheMu.Lock() after it (the cache
+    insert), wherever they sit (inside the rows loop, after it, after an
+    explicit rows.Close())."""
+    qs = list(re.finditer(r"\bam\.db\.Query(?:Context)?\(", body))
+    if len(qs) != 1:
+        die("VerifyToken: expected exactly one am.db.Query/QueryContext call (the token query), found %d" % len(qs))
+    q = qs[0]
+    q_stmt = line_start(body, q.start())
+    q_close = match_close(body, q.end() - 1, "token query call")
+
+    # 1. after-query: after the statement and the error check that directly follows it
+    pos = line_end(body, q_close)
+    ind = indent_at(body, q.start())
+    ns, nt = next_code_line(body, pos)
+    if re.match(r"if\s+(?:\w+\s*:=.*;\s*)?err\s*!=\s*nil\s*\{", nt):
+        pos = line_end(body, match_close(body, body.index("{", ns), "error check after the token query"))
+        ns, nt = next_code_line(body, pos)
+    if re.match(r"defer\s+\w+\.Close\(\)\s*$", nt):
+        pos = line_end(body, ns)
+    after_query = pos
+
+    # 2. before-insert: every am.cacheMu.Lock() after the query
+    locks = [m for m in re.finditer(r"^[ \t]*am\.cacheMu\.Lock\(\)[ \t]*$", body, re.M) if m.start() > after_query]
+    if not locks:
+        die("VerifyToken: no am.cacheMu.Lock() after the token query (cache insert landmark missing)")
+
+    # 3. after-cache-miss: after the miss counter if it is there (exactly once,
+    # before the query), else right before the query statement
+    miss = [m for m in re.finditer(r"^[ \t]*am\.cacheMisses\.Add\([^)\n]*\)[ \t]*$", body, re.M) if m.start() < q_stmt]
+    if len(miss) == 1:
+        miss_pos, miss_ind = line_end(body, miss[0].start()), indent_at(body, miss[0].start())
+    else:
+        miss_pos, miss_ind = q_stmt, ind
+    if "RLock()" not in body[:miss_pos] and "cache[" not in body[:miss_pos]:
+        die("VerifyToken: no cache lookup before the token query (cache-miss landmark missing)")
+
+    ins = [(miss_pos, miss_ind + 'verifSched("verify:after-cache-miss")\n'),
+           (after_query, ind + 'verifSched("verify:after-query")\n')]
+    for m in locks:
+        ins.append((line_start(body, m.start()), indent_at(body, m.start()) + 'verifSched("verify:before-insert")\n'))
+    for at, text in sorted(ins, reverse=True):
+        body = body[:at] + text + body[at:]
+    return body, len(locks)
 
 
 def insert_once(body, anchor_re, text, where, what):
@@ -136,20 +222,7 @@ def main():
     # --- VerifyToken
     b0, b1 = func_span(src, r"^func \(am \*AuthManager\) VerifyToken\(token string\) \*TokenInfo \{")
     body = src[b0:b1]
-    body = insert_once(body, r"^[ \t]*am\.cacheMisses\.Add\(1\)[ \t]*$", 'verifSched("verify:after-cache-miss")', "after",
-                       "cache-lookup miss (am.cacheMisses.Add(1))")
-    if len(re.findall(r"am\.db\.Query\(", body)) != 1:
-        die("VerifyToken: expected exactly one am.db.Query( call")
-    q = body.index("am.db.Query(")
-    d = body.find("defer rows.Close()", q)
-    if d < 0 or len(re.findall(r"defer rows\.Close\(\)", body)) != 1:
-        die("VerifyToken: expected exactly one 'defer rows.Close()' after the token query")
-    body = insert_once(body, r"^[ \t]*defer rows\.Close\(\)[ \t]*$", 'verifSched("verify:after-query")', "after",
-                       "token query returned (defer rows.Close())")
-    if body.index("am.cacheMu.Lock()") < body.index("am.db.Query("):
-        die("VerifyToken: cache-insert lock is expected after the token query")
-    body = insert_once(body, r"^[ \t]*am\.cacheMu\.Lock\(\)[ \t]*$", 'verifSched("verify:before-insert")', "before",
-                       "cache-insert lock (am.cacheMu.Lock())")
+    body, nlocks = instrument_verify(body)
     src = src[:b0] + body + src[b1:]
 
     # --- InvalidateCache
@@ -181,7 +254,7 @@ def main():
         f.write(HELPER)
     print("OVERLAY %s %s" % (rel, dst))
     print("OVERLAY internal/auth/zz_verif_sched.go %s" % helper)
-    sys.stderr.write("c21_sched: 5 schedule points, %d clock reads rewritten\n" % n)
+    sys.stderr.write("c21_sched: %d schedule points, %d clock reads rewritten\n" % (4 + nlocks, n))
 
 
 if __name__ == "__main__":
